@@ -267,7 +267,10 @@ func c11Gen(idx int) c11Case {
 		// a stream can only be owed rounds that are still held when it starts
 		lo = c.Prefill - uint64(c.MemCap) + 2 + 20
 	}
-	switch rng.Intn(5) {
+	switch rng.Intn(6) {
+	case 5:
+		// beyond the head: refused today; if a stream from head+k is ever accepted it owes exactly head+k first
+		c.From = c.Prefill + uint64(rng.Range(1, 2))
 	case 0:
 		c.From = 0 // follow from now
 	case 1:
@@ -285,7 +288,7 @@ func c11Gen(idx int) c11Case {
 		c.From = c.Prefill - uint64(rng.Intn(int(span)+1))
 	}
 	scanLen := 0
-	if c.From > 0 {
+	if c.From > 0 && c.From <= c.Prefill {
 		scanLen = int(c.Prefill-c.From) + 1
 	}
 	if scanLen > 0 {
@@ -302,6 +305,16 @@ func c11Check(run *vfRun, c c11Case, st *vfsStack, cons *vfsConsumer, label stri
 	be := c.Backend
 	sched := c.Schedule
 	ok := true
+	if c.From > c.Prefill && len(got) == 0 {
+		// requested from beyond the head the store had: a refusal (stream ended, nothing delivered) is a legal answer
+		select {
+		case err := <-cons.done:
+			cons.done <- err
+			run.Count("streams_from_beyond_the_head_refused", 1)
+			return true
+		default:
+		}
+	}
 	cons.mu.Lock()
 	pk := append([]*proto.BeaconPacket(nil), cons.got...)
 	cons.mu.Unlock()
@@ -594,6 +607,7 @@ func c11Run(run *vfRun, c c11Case) {
 			close(rel)
 		case err := <-cons.done:
 			if c.From > st.head {
+				run.Count("streams_from_beyond_the_head_refused", 1)
 				run.Eval("")
 				return
 			}
